@@ -33,6 +33,7 @@ def _classify(path, X, T):
     """lower / upper / table / foreign according to the positive guards of the path"""
     cls = "table"
     foreign = []
+    path.nonstrict = []
     for g in path.guards:
         t = g.term
         if not isinstance(t, sp.Basic):
@@ -49,8 +50,11 @@ def _classify(path, X, T):
                 side = "upper"
         if side is None:
             foreign.append(g.text())
-        elif g.polarity:
-            cls = side
+        else:
+            if name in ("LE", "GE"):
+                path.nonstrict.append(g.text())
+            if g.polarity:
+                cls = side
     return cls, foreign
 
 
@@ -74,6 +78,9 @@ def rules(chk: Check) -> None:
                 c, foreign = _classify(p, X, T)
                 chk.ob("R10.1", fi.where(), f"{f}{X}: branch guard `{p.gtext()}` compares the temperature with the bounds of the {X} phase only",
                        not foreign, "; ".join(foreign), key=f"guard|{f}{X}|{c}")
+                chk.ob("R10.1", fi.where(), f"{f}{X}: branch guard `{p.gtext()}` is strict, so exactly at the range end the tabulated branch is taken "
+                       "(setExtrapolate matches its coefficients to the table by evaluating these functions at TMin/TMax themselves)",
+                       not p.nonstrict or f == "csq", "; ".join(p.nonstrict), key=f"strict|{f}{X}|{c}")
                 if c in got:
                     chk.ob("R10.1", fi.where(), f"{f}{X}: one {c} branch", False, "duplicate branch", key=f"dup|{f}{X}|{c}")
                 got[c] = p.value
@@ -343,7 +350,7 @@ def rules(chk: Check) -> None:
         ok, how = is_zero(mirror(a) - b, chk.seed)
         chk.ob("R10.7", S.func(f"{TH}.{f}LowT").where(), f"{f}LowT mirrors {f}HighT", ok, how, key=f"mirror|{f}", how=how)
 
-    chk.floor("R10.1", 30)
+    chk.floor("R10.1", 50)
     chk.floor("R10.2", 8)
     chk.floor("R10.3", 14)
     chk.floor("R10.4", 16)
